@@ -1,5 +1,6 @@
 import Unimock.Lemmas.Actions
 import Unimock.Props.C02
+import Unimock.Props.C17
 /-!
 # C12 — single-use return values are moved out at most once and never duplicated
 
@@ -223,5 +224,13 @@ theorem C12_typestate_value_level (s : Segment ρ) (v : ρ) (o : Bool) (h : s.re
   have := (C02_single_use_iff s v o h).mp hs
   unfold Segment.advance
   rcases this.2 with hq | hq <;> rw [hq] <;> simp <;> split <;> omega
+
+/-- **C12, owned leaves inside composites** (`Option` / `Result` / tuples / `Vec` / `Poll`, nested):
+    a value stored through the single-use path is handed out in full exactly once; the second request
+    fails iff some owned leaf sits on the populated path of the configured value (re-export of
+    `Output.C17_once`). -/
+theorem C12_composite_single_use (v : Output.Val) (k : Output.Kind) (s : Output.Stored)
+    (h : Output.intoReturn true k v = some s) : Output.OnceSpec (Output.hasOwned k v) v s :=
+  Output.C17_once v k s h
 
 end Unimock
